@@ -250,7 +250,9 @@ def check(P, R, tier):
     todo = [("ymd", "d", "__ymd_add_d"), ("yd", "d", "__yd_add_d"), ("ywd", "d", "__ywd_add_d"), ("ymcw", "d", "__ymcw_add_d"),
             ("ymd", "w", "__ymd_add_w"), ("yd", "w", "__yd_add_w"), ("ywd", "w", "__ywd_add_w"), ("ymcw", "w", "__ymcw_add_w")]
     na = adddecode.run_parallel(R, tu, "RF2-add", todo, every=(tier == "thorough"), jobs=14)
-    R.floor("RF2-add", "decoded (start, count) points of the day and week adders", na, 500000)
+    R.floor("RF2-add", "decoded (start, count) points of the day and week adders", na, 200000)
+    nd = adddecode.run_daynumbers(R, tu, "RF2-add")
+    R.floor("RF2-add", "decoded probes of the day-number adders", nd, 100)
     import fresh
     nf = fresh.check_unit(R, tu, "RF-fresh")
     R.floor("RF-fresh", "uses of looked-up period lengths in the date core", nf, 50)
